@@ -787,6 +787,58 @@ func (d *driver) tamperRandom(saved map[string][]byte) {
 			}
 		}
 	}
+	// forge one entry of the right-edge partial data tile: same shape, same index and timestamp, but
+	// other certificate bytes (unparseable garbage, or a copy with one byte changed)
+	if d.r.Intn(6) == 0 {
+		var edge string
+		for _, c := range keys {
+			if strings.HasPrefix(c, "tile/data/") && strings.Contains(c, ".p/") {
+				if edge == "" || len(c) > len(edge) || (len(c) == len(edge) && c > edge) {
+					edge = c
+				}
+			}
+		}
+		if edge != "" {
+			o := w.objects[edge]
+			raw, _ := gunzip(o.data)
+			var es []*sunlight.LogEntry
+			for rest := raw; len(rest) > 0; {
+				e, r2, err := sunlight.ReadTileLeaf(rest)
+				if err != nil {
+					es = nil
+					break
+				}
+				es = append(es, e)
+				rest = r2
+			}
+			if len(es) >= 1 {
+				i := d.r.Intn(len(es))
+				if d.r.Intn(2) == 0 {
+					g := make([]byte, 5+d.r.Intn(40))
+					d.r.Read(g)
+					es[i].Certificate = g
+				} else {
+					c := bytes.Clone(es[i].Certificate)
+					c[d.r.Intn(len(c))] ^= 0x10
+					es[i].Certificate = c
+				}
+				var newRaw []byte
+				for _, e := range es {
+					newRaw = sunlight.AppendTileLeaf(newRaw, e)
+				}
+				var b bytes.Buffer
+				zw := gzip.NewWriter(&b)
+				zw.Write(newRaw)
+				zw.Close()
+				w.objects[edge] = object{data: b.Bytes(), imm: o.imm}
+				w.logf(nil, "ev|tamper|%s|bytes|%s", edge, hx(newRaw))
+				d.stats["tamper"]++
+				d.stats["tamper-forged-edge-leaf"]++
+				w.mon.tampered = true
+				return
+			}
+		}
+	}
 	// rearrange the leaves of the right-edge partial data tile: every leaf stays a genuine leaf of
 	// that tile, only not at its own position (one overwritten by its neighbour, or two swapped)
 	if d.r.Intn(5) == 0 {
